@@ -364,7 +364,10 @@ def _ready_facts(ctx: Ctx, ci: ClassInfo):
                     todo.append(h)
     fields, flags, bases = set(), set(), set()
     for u in units:
+        called = {id(c.func) for c in ast.walk(u.node) if isinstance(c, ast.Call)}
         for n in ast.walk(u.node):
+            if id(n) in called and not (isinstance(n, ast.Attribute) and isinstance(n.value, ast.Name)):
+                continue                 # a method of the pool that is called is not a state flag
             if isinstance(n, ast.Attribute) and isinstance(n.value, ast.Name) and n.value.id == 'self' \
                     and p.lookup_method(ci, n.attr) is None:
                 fields.add(n.attr)
@@ -395,9 +398,17 @@ def rule_is_ready(ctx: Ctx, out: Collector) -> None:
         problems = []
         table = {}
         pool_states = [('missing', None)]
-        for flag in sub or ['_shutdown']:
-            pool_states.append(('alive', AObj(('ext', 'Pool'), {f: False for f in (sub or ['_shutdown'])}, tag='pool-alive')))
-            pool_states.append((f'shut down ({flag})', AObj(('ext', 'Pool'), {f: f == flag for f in (sub or ['_shutdown'])}, tag='pool-down')))
+        # a live pool has every unusable-state flag of the stdlib executors cleared, whichever of them the code looks at (and
+        # wherever: in is_ready itself, in a helper of the class, in a function of the module)
+        STD_FLAGS = ('_shutdown', '_broken', '_shutdown_thread')
+        # the unusable states of the stdlib executors (fact table): a thread pool is unusable when shut down or when its
+        # initializer failed (_broken); a process pool that is shut down or broken has _shutdown_thread set (and _broken when broken)
+        unusable = {'thread': {'shut down': ('_shutdown',), 'broken (initializer failed)': ('_broken',)},
+                    'process': {'shut down': ('_shutdown_thread',), 'broken (a worker died)': ('_broken', '_shutdown_thread')}}[kind]
+        extra = [f for f in sub if f not in STD_FLAGS]
+        pool_states.append(('alive', AObj(('ext', 'Pool'), {**{f: False for f in STD_FLAGS}, **{f: False for f in extra}}, tag='pool-alive')))
+        for label, on in unusable.items():
+            pool_states.append((label, AObj(('ext', 'Pool'), {**{f: (f in on) for f in STD_FLAGS}, **{f: False for f in extra}}, tag='pool-down')))
         others = [a for a in attrs if a != pool_field]
         other_states = list(itertools.product(*[[('missing', None), ('present', AObj(('ext', 'X'), {}))] for _ in others])) or [()]
         for pname, pool in pool_states:
@@ -418,21 +429,6 @@ def rule_is_ready(ctx: Ctx, out: Collector) -> None:
                     problems.append(f'{key}: does not raise')
                 if not should_raise and res != ['value']:
                     problems.append(f'{key}: raises although everything is registered')
-        # the unusable states of the stdlib executors (fact table): a thread pool is unusable when shut down or when its
-        # initializer failed (_broken); a process pool that is shut down or broken has _shutdown_thread set (and _broken when broken)
-        ALL_FLAGS = ('_shutdown', '_broken', '_shutdown_thread')
-        unusable = {'thread': {'shut down': ('_shutdown',), 'broken (initializer failed)': ('_broken',)},
-                    'process': {'shut down': ('_shutdown_thread',), 'broken (a worker died)': ('_broken', '_shutdown_thread')}}[kind]
-        for label, on in unusable.items():
-            def run_state(oracle: Oracle, on=on):
-                obj = AObj(ci, {a: AObj(('ext', 'X'), {}) for a in attrs})
-                obj.attrs[pool_field] = AObj(('ext', 'Pool'), {f: (f in on) for f in ALL_FLAGS}, tag='pool-unusable')
-                Interp(p, oracle).call_unit(m, [], {}, obj)
-                return 'ok'
-            res = sorted({o[0] for o in enumerate_outcomes(run_state)})
-            table[f'stdlib state: {label}'] = res
-            if res != ['raise']:
-                problems.append(f'a {kind} pool that is {label} passes the readiness test')
         cons = f'{m.module.name}::{m.qualname}::raises iff the pool (or its manager) is missing or shut down'
         if not problems:
             out.ok('EX-4', cons, p.loc(m, m.node), f'{table}')
@@ -448,7 +444,8 @@ def rule_is_ready(ctx: Ctx, out: Collector) -> None:
                 obj.attrs[pool_field] = state
                 return Interp(p, oracle).call_unit(gpe, [], {}, obj)
             handed = []
-            for label, state in (('missing', None), ('shut down', AObj(('ext', 'Pool'), {f: True for f in (sub or ['_shutdown'])}, tag='pool-down'))):
+            for label, state in (('missing', None), ('shut down', AObj(('ext', 'Pool'), {**{f: (f in unusable['shut down']) for f in STD_FLAGS},
+                                                                                         **{f: False for f in extra}}, tag='pool-down'))):
                 outs = enumerate_outcomes(lambda oracle, state=state: run_gpe(oracle, state))
                 if any(o[0] == 'value' for o in outs):
                     handed.append(label)
@@ -458,7 +455,106 @@ def rule_is_ready(ctx: Ctx, out: Collector) -> None:
                 out.bad('EX-4', cons, p.loc(gpe, gpe.node), f'get_pool_executor hands out a {" / ".join(handed)} pool without checking that it is ready')
 
 
+def _dispatch_world(ctx: Ctx, is_coro: bool, tags: Tuple[str, ...], raises: Optional[str] = None):
+    """run_node interpreted for one kind of node with an opaque body: -> list of (calls of the body, returned the body's value)
+    over the resolutions.  The pool runs what it is handed in place (run_in_executor / submit + wrap_future)."""
+    p = ctx.p
+    unit = p.func(RUN_NODE)
+    regs = _registries(ctx)
+
+    def run(oracle: Oracle):
+        calls: List[Tuple[list, dict]] = []
+        tok = AObj(('ext', 'Value'), {}, tag='body-value')
+        a1, a2, k1 = (AObj(('ext', 'Arg'), {}, tag=t_) for t_ in ('a1', 'a2', 'k1'))
+        holder: Dict[str, Any] = {}
+
+        err = AObj(('ext', f'builtins.{raises}' if raises != 'PicklingError' else 'pickle.PicklingError'), {'args': ()},
+                   tag=f'exc:{raises}') if raises else None
+
+        def body(a, k):
+            calls.append((list(a), dict(k)))
+            if raises:
+                raise ARaise(f'{raises} (raised by the body)', err)
+            return tok
+
+        def in_place(a, k):
+            return holder['interp'].call(a[0], list(a[1:]), dict(k))
+        pool = AObj(('ext', 'Executor'), {'submit': AExt('world.submit')}, tag='pool')
+        loop = AObj(('ext', 'Loop'), {'run_in_executor': AExt('world.run_in_executor')}, tag='loop')
+        stubs: Dict[str, Any] = {}
+        for kind, ci in regs.items():
+            m = p.lookup_method(ci, 'get_pool_executor')
+            if m is None:
+                raise AnalysisError('get_pool_executor not found')
+            stubs[m.fid] = lambda interp, a, k, s_: pool
+        for u in p.functions.values():
+            if u.name == 'get_callable_run_method' and u.parent is None:
+                stubs[u.fid] = lambda interp, a, k, s_: AExt('world.body')
+        ext = {'inspect.iscoroutinefunction': lambda a, k: is_coro, 'asyncio.get_running_loop': lambda a, k: loop,
+               'asyncio.get_event_loop': lambda a, k: loop, 'world.body': body,
+               'world.run_in_executor': lambda a, k: in_place(a[1:], k), 'world.submit': in_place,
+               'asyncio.wrap_future': lambda a, k: a[0], 'asyncio.to_thread': in_place}
+        interp = Interp(p, oracle, stubs=stubs, ext_stubs=ext)
+        holder['interp'] = interp
+        node = AObj(('ext', 'Node'), {'tags': tuple(tags), 'process': AExt('world.body')}, tag='node')
+        closure = {'__unit__': None, '__closure__': None, '__module__': unit.module,
+                   'process_pool_registry': AObj(regs['process'], {}), 'threads_pool_registry': AObj(regs['thread'], {})}
+        try:
+            res = interp.call_unit(unit, [node, a1, a2], {'node_id': 'N', 'k': k1}, None, closure)
+        except ARaise as ex:
+            if not raises:
+                raise
+            return len(calls) == 1 and calls[0][0] == [a1, a2] and calls[0][1] == {'k': k1}, ex.obj is err, len(calls)
+        return len(calls) == 1 and calls[0][0] == [a1, a2] and calls[0][1] == {'k': k1}, (res is tok) and not raises, len(calls)
+    return enumerate_outcomes(run)
+
+
 def rule_dispatch_transparent(ctx: Ctx, out: Collector) -> None:
+    """EX-5: in every execution mode run_node invokes the body exactly once with exactly the (*args, **kwargs) it was given
+    and returns the body's value itself.  Decided by interpreting run_node (and whatever helpers it is split into) for a
+    coroutine node, an inline node, a thread-pool node and a process-pool node with an opaque body."""
+    unit = ctx.p.func(RUN_NODE)
+    tagv = {'non_async': 'non_async', 'process': 'process'}          # the values of NodeTag (enum members are their values here)
+    modes = {'coroutine': (True, ()), 'inline (non_async)': (False, (tagv['non_async'],)), 'thread pool': (False, ()),
+             'process pool': (False, (tagv['process'],))}
+    problems, table = [], {}
+    for label, (is_coro, tags) in modes.items():
+        outs = _dispatch_world(ctx, is_coro, tags)
+        table[label] = [f'{o[0]}: {o[1]}' for o in outs]
+        for o in outs:
+            if o[0] != 'value':
+                problems.append(f'{label}: run_node raises {o[1]} although the body returns')
+            else:
+                same_args, same_value, n_calls = o[1]
+                if n_calls != 1:
+                    problems.append(f'{label}: the body is invoked {n_calls} times')
+                elif not same_args:
+                    problems.append(f'{label}: the body does not receive exactly the (*args, **kwargs) run_node was given')
+                if not same_value:
+                    problems.append(f'{label}: what run_node returns is not the value of the body')
+    # a body that raises: invoked once all the same, and its exception is what leaves run_node (whatever its class - the classes
+    # pickle raises for an argument it cannot transfer are also what a body can raise)
+    for label, (is_coro, tags) in modes.items():
+        for kind in ('ValueError', 'TypeError', 'AttributeError', 'PicklingError', 'RuntimeError', 'OSError'):
+            for o in _dispatch_world(ctx, is_coro, tags, raises=kind):
+                if o[0] != 'value':
+                    problems.append(f'{label}, the body raises {kind}: {o[1]}')
+                    continue
+                same_args, same_exc, n_calls = o[1]
+                table[f'{label}, body raises {kind}'] = f'{n_calls} invocation(s), {"its exception leaves" if same_exc else "another outcome"}'
+                if n_calls != 1:
+                    problems.append(f'{label}: a body that raises {kind} is invoked {n_calls} times')
+                elif not same_exc:
+                    problems.append(f'{label}: the {kind} a body raises is not what run_node raises')
+    cons = f'{unit.module.name}::{unit.qualname}::all dispatch leaves pass (*args, **kwargs) and return the value unchanged'
+    if not problems:
+        out.ok('EX-5', cons, ctx.p.loc(unit, unit.node), f'{len(modes)} modes interpreted: coroutine, inline, thread pool, process pool', table=table)
+    else:
+        out.bad('EX-5', cons, ctx.p.loc(unit, unit.node), 'the execution modes of run_node are not transparent: ' + '; '.join(list(dict.fromkeys(problems))[:4]),
+                table=table, props={'C17', 'C04', 'C12'})
+
+
+def _rule_dispatch_transparent_by_shape(ctx: Ctx, out: Collector) -> None:
     """EX-5: every dispatch leaf of run_node passes the same *args / **kwargs to the body and returns the
     body's value unchanged."""
     unit = ctx.p.func(RUN_NODE)
@@ -478,8 +574,15 @@ def rule_dispatch_transparent(ctx: Ctx, out: Collector) -> None:
         c = ev.node
         if role == 'executor':
             part = None
+            handed = []
             for x in c.args:
                 x, _ = sym.resolve_value(ctx.p, x, ev.inst)             # the partial may be bound to a local first
+                if isinstance(x, ast.Call) and isinstance(x.func, ast.Attribute) and x.func.attr == 'submit':
+                    # wrap_future(<pool>.submit(<partial>)): what is handed over are the arguments of submit
+                    handed.extend(sym.resolve_value(ctx.p, y, ev.inst)[0] for y in x.args)
+                else:
+                    handed.append(x)
+            for x in handed:
                 if isinstance(x, ast.Call) and (dotted(x.func) or '').endswith('partial'):
                     part = x
             if part is None:
